@@ -2,6 +2,8 @@
 
 package jsonpath
 
+import "sort"
+
 func init() {
 	zzHarnesses["zzH_C07_keys"] = zzH_C07_keys
 	zzHarnesses["zzH_C05"] = zzH_C05
@@ -15,7 +17,7 @@ var zzC07Alphabet = []string{"", "a", "B", "ab", "aa", "é", "z"}
 // zzH_C07_keys: getSortedKeys returns the keys in ascending byte-wise order
 // for every key subset, every map iteration order and a dirty pooled slice.
 func zzH_C07_keys() {
-	mask := zzIntRange("mask", 0, zzParamInt("maxmask"))
+	mask := zzIntRange("mask", zzParamInt("minmask"), zzParamInt("maxmask"))
 	size := 0
 	for i := range zzC07Alphabet {
 		if mask&(1<<uint(i)) != 0 {
@@ -28,11 +30,11 @@ func zzH_C07_keys() {
 		// dirty the pool with a slice of another capacity holding stale keys
 		dirty := zzIntRange("dirty", 0, 3)
 		if dirty > 0 {
-			junk := map[string]interface{}{}
-			for i := 0; i < dirty*2; i++ {
-				junk[string(rune('p'+i))] = i
+			junk := make(sort.StringSlice, dirty*2)
+			for i := range junk {
+				junk[i] = "stale"
 			}
-			putSortSlice(getSortedKeys(junk))
+			putSortSlice(&junk)
 		}
 		m := map[string]interface{}{}
 		var want []string
